@@ -163,6 +163,54 @@ func convertQuery(v, typ string) (interface{}, error) {
 }
 
 // RunRoute evaluates Routes[req.Route] on req.
+// RunCommand: parameters given by name; an omitted one takes its default, is an error when
+// required, and is simply not defined otherwise. The body runs like a function body on the
+// module scope; arguments are not type-checked (the CLI converts them before the call).
+func (e *Evaluator) RunCommand(call *CmdCall) (res Result) {
+	cmd := &e.prog.Cmds[call.Cmd]
+	e.overflow, e.steps, e.Exceeded, e.missingField, e.calls = false, 0, false, 0, 0
+	defer func() {
+		res.Overflow = e.overflow
+		res.Steps = e.steps
+		if strings.Contains(res.Msg, "reference:") || e.Exceeded {
+			res.Unspec = true
+		}
+	}()
+	env := newScope(nil)
+	for _, p := range cmd.Params {
+		if v, ok := call.Args[p.Name]; ok {
+			env.vars[p.Name] = &binding{val: normJSON(v)}
+		} else if p.Default != nil {
+			v, err := e.expr(p.Default, env)
+			if err != nil {
+				return Result{Err: true, Msg: err.Error()}
+			}
+			env.vars[p.Name] = &binding{val: v}
+		} else if p.Required {
+			return Result{Err: true, Msg: "missing required argument"}
+		}
+	}
+	v, err := e.block(cmd.Body, env, true)
+	if err != nil {
+		if r, ok := err.(*retSig); ok {
+			return Result{Status: 200, Value: r.val}
+		}
+		return Result{Err: true, Msg: err.Error()}
+	}
+	return Result{Status: 200, Value: v, Msg: "no-return"}
+}
+
+// normJSON: argument values survive a JSON round trip in replay files (ints come back as float64).
+func normJSON(v interface{}) interface{} {
+	if f, ok := v.(float64); ok && f == float64(int64(f)) {
+		return int64(f)
+	}
+	if i, ok := v.(int); ok {
+		return int64(i)
+	}
+	return v
+}
+
 func (e *Evaluator) RunRoute(req *Request) (res Result) {
 	rt := &e.prog.Routes[req.Route]
 	e.overflow, e.steps, e.Exceeded, e.missingField, e.calls = false, 0, false, 0, 0
